@@ -49,6 +49,11 @@ func fsMachine(p *Prog, copyAtomic bool) *Machine {
 			}
 		}
 	}
+	m.Hooks["os.SameFile"] = func(m *Machine, st *State, call *ssa.CallCommon, args []Val) ([]Val, bool) {
+		return []Val{false}, true
+	}
+	m.Hooks["os.Link"] = okFail("link", 1)
+	m.Hooks["os.Symlink"] = okFail("symlink", 1)
 	m.Hooks["os.Remove"] = okFail("remove", 1)
 	m.Hooks["os.Rename"] = okFail("rename", 1)
 	m.Hooks["os.Open"] = okFail("open", 2)
@@ -566,6 +571,10 @@ func c20Clean(p *Prog, rp *Report) {
 				}
 			}
 			return -1
+		}
+		if hasPrefix(ef, "link(", "") || hasPrefix(ef, "symlink(", "") {
+			problems = append(problems, "the destination is made with a link instead of being written: a hard link to a symbolic link is that link again (it dangles in the destination), and the two names share one file afterwards")
+			continue
 		}
 		opened := has(`open("SRC")=ok`)
 		created := has(`create("DST")=ok`) || hasPrefix(ef, `openfile("DST"`, "=ok")
